@@ -8,6 +8,7 @@
 #     Applies /verif/seeded/<seedname>/patch.diff to /repo, runs the quick
 #     checks named, prints one line per check, and restores /repo.
 export GOFLAGS=-mod=mod GOPROXY=off GOSUMDB=off GOTOOLCHAIN=local
+export VERIF_SCRATCH_OUT=/tmp/verif_scratch_out  # runs on a modified tree must not touch /verif/evidence
 set -u
 cmd=$1; shift
 case "$cmd" in
